@@ -532,6 +532,20 @@ def _const_call_gate(ctx, F):
             if equal:
                 tests.append((bb, s_, toks))
 
+    # a plain boolean flag tested directly (`if signature.is_const`): the edge on which it is true
+    for bb, t in f.switches():
+        l = op_local(t[1])
+        if l is None or (f.local_ty(l) or "") != "bool":
+            continue
+        info, flip = bool_condition(f, bb)
+        if info and info[0] == "call" and info[1].name() in ("eq", "ne"):
+            continue
+        toks = prov(f, l, 8)
+        for s_ in f.succ(bb):
+            v = bool_edge_value(f, bb, s_)
+            if v is not None and (v ^ flip):
+                tests.append((bb, s_, toks))
+
     def reasons(block):
         out = set()
         for bb, s_, toks in tests:
